@@ -334,6 +334,8 @@ static QByteArray refDoc(Rng &r) {   // in-language document whose payloads use 
     auto enc = [&](uint c, bool attr) -> QByteArray {
         bool mustEscape = c == '<' || c == '&' || (attr && c == '"') || c == 0xFFFE || c == 0xFFFF || c == 0 || (c == '>' && r.coin());
         int how = mustEscape ? 1 + r.below(2) : r.below(4);
+        // Qt 5.15's QDom mangles numeric references above U+FFFF (&#x10FFFF; reads as U+FFFF): never produced by the writer, not fed
+        if (c > 0xFFFF) how = 0;
         if (how == 1) { QByteArray n = QByteArray::number(c); if (r.coin()) n.prepend(QByteArray(r.below(4), '0')); return "&#" + n + ";"; }
         if (how == 2) { QByteArray n = QByteArray::number(c, 16); if (r.coin()) n = n.toUpper(); if (r.coin()) n.prepend(QByteArray(r.below(4), '0')); return "&#x" + n + ";"; }
         if (how == 3) { switch (c) { case '<': return "&lt;"; case '>': return "&gt;"; case '&': return "&amp;"; case '"': return "&quot;"; case '\'': return "&apos;"; } }
@@ -420,7 +422,7 @@ int main(int argc, char **argv) {
     int nStr = thorough ? 40000 : 3000;
     for (int i = 0; i < nStr; i++) { QString s = genStr(rng); strStats(s, "random"); runString(s, idx++, true); }
     // 3. hand-written and reference-heavy documents, rejected documents
-    for (const char *d : { "<a/>", "<a></a>", "<a k=\"&#x41;&#65;&apos;&#x10FFFF;&#xfffd;\">&#x3c;&#60;&#0065;&#x00041;</a>", "<a>&#32;</a>", "<a>&#9;&#10;&#13; </a>", "<a> &#160;</a>",
+    for (const char *d : { "<a/>", "<a></a>", "<a k=\"&#x41;&#65;&apos;&#xFFFF;&#xfffd;\">&#x3c;&#60;&#0065;&#x00041;</a>", "<a>&#32;</a>", "<a>&#9;&#10;&#13; </a>", "<a> &#160;</a>",
                            "<a>&#13;x</a>", "<a>x>y]]</a>", "<a k=\">\"/>", "<a k=\"a\tb\nc\rd\"/>", "<a><b/>  <c/></a>", "<a> <b/>x</a>", "<a:b c:d=\"1\"/>", "<a.b-c_d:e/>",
                            "<a k=\"1\" k=\"1\"/>",
                            "<a>x]]>y</a>", "<a>&</a>", "<a k=\"<\"/>", "<a></b>", "<a><b></a></b>", "<a>&#;</a>", "<a>&#x;</a>", "<a>&#6 5;</a>", "<a>&lt</a>", "<a>&#X41;</a>", "<1a/>",
